@@ -12,6 +12,21 @@ CHECKS = {
          "Every history of <= d events (quick d=5, thorough d=6) over a 39-letter alphabet of create-pool / withdraw / send / direct creation / split / move / block-time events is executed on the real application; the backing identity, the pool inequalities, the three registered invariants and agreement with a boring reference model are evaluated in every state and on every transition; BFS-tree paths are replayed with real signed transactions through DeliverTx where 'a rejected message changes nothing' is decided against baseapp's real rollback.",
          "Cosmos SDK/Tendermint trusted; state identity = custom stores + bank + auth + relative block time; amounts and durations limited to the alphabet.",
          "DESIGN.md §3 C05"),
+ "C06": ("model_checking",
+         "explicit-state BFS over real-store branches + ABCI conformance replay",
+         "Every history of <= d events (quick 5, thorough 7) of one owner with three pools of different lock ends, sends (both restart modes), withdrawals and block steps that land before / exactly on / after every lock end. Every transition: a withdrawal pays exactly the matured remainders, leaves locked pools untouched and pays zero when repeated; a send only ever creates a brand-new continuous vesting account holding the amount. Every state: the pool query's withdrawable equals what a withdrawal on a branch of that state pays per pool.",
+         "Same trusted base as C05; lock ends limited to 5/10/20 s and block steps to the listed set.",
+         "DESIGN.md §3 C06"),
+ "C02": ("model_checking",
+         "exhaustive enumeration of configurations x all block cadences on real-store branches vs exact rational schedule",
+         "For ~4000 (quick) / ~6800 (thorough) valid minter configurations (1-3 periods of none / linear / exponential-step, multipliers 0..1, period ends mid-step) every strictly increasing subsequence of an 8 (quick) / 11 (thorough) point grid of block instants (start, period ends, step boundaries, each +-1ms/+-1ns, far jump) is run through the real Keeper.Mint on store branches; after every block the cumulative minted amount must equal floor(schedule(T)) computed in exact rationals (either neighbour only when the schedule is within the fixed-point error bound of an integer), be identical for every cadence, never negative, match the supply delta; finished linear periods must have minted exactly their amount and the sequence id must follow the schedule.",
+         "Keeper-level (params written through real Validate/SetParams); amounts/steps/multipliers limited to the alphabet; periods of 15-20 s.",
+         "DESIGN.md §3 C02"),
+ "C19": ("exploration",
+         "bounded-exhaustive input enumeration on the real BeginBlocker + query, exact rational oracle",
+         "Full product of minter configurations x initial supply {1,1e6,1e12+7,1e30} x millisecond-aligned instants (before start, first/later step, last ms of a period, exactly at the hand-over, after it, no-minting) reached directly or through an earlier block; the reported inflation (Inflation query and Mint event) in the state left by the real minter BeginBlocker must equal annualised-rate/supply within the derived fixed-point bound, be zero when nothing is emitted, and the amount minted over 1ms/1s/1h inside one step must be within one base unit of rate*interval/year.",
+         "Inflation is only evaluated in keeper-reachable states; step durations 10 s and 4 years; tolerance derived from operation counts.",
+         "DESIGN.md §3 C19"),
 }
 
 NOT_YET = {}
